@@ -1,17 +1,282 @@
 import LexVerif.Spec.Decimal
+import LexVerif.Props.TablesParse
+import LexVerif.Proof.FastPathExact
+import LexVerif.Proof.BinaryCorrect
+import LexVerif.Proof.SlowBinaryDigits
+import LexVerif.Proof.BellSound
 /-!
 # C05 — non-decimal radix string→float parsing is correctly rounded (property theorems)
 
 Oracle: `Spec.litBits` with mantissa radix `r` and exponent base `b`. Table theorems for all 35 radices
 are in `Props/TablesParse.lean`.
+
+Algorithm level (models `Model.FastPath`, `Model.Binary`; tie: component ops `fp`, `bin`, `sbin`):
+
+* `fastPath_exact_radix` — **complete**, all 35 radices, both float types, `radix` and `compact` builds;
+* `binary_correct` — **complete** for the model's `binary` (power-of-two radices and mixed bases), with the
+  exclusion `MarkerOk` that mirrors a defect of the code (`binary_marker_overflow_witness`: the invalid
+  marker `power2 + INVALID_FP` is not negative once `power2 ≥ 32768`; API-level input: radix 2,
+  `1` `0`×52 `1` `0`×10 `1` `e` `1001110001000000` (= 40000) parses to `0x8740000000000400` instead of `+∞`);
+* `binary_decides` — without `many_digits` (or with `lossy`) `binary` always returns a valid float;
+* `binary_truncated_correct` — **complete**: a *valid* non-lossy answer for a truncated mantissa is `roundNE x`
+  for every `x ∈ [M, M+1)·base^e` (the true value of the literal);
+* `bellerophon_radix_sound` — **complete** on the model: a valid answer of Bellerophon is `roundNE` of the true
+  value, all 29 generic radices, `radix` and `compact` tables, truncated mantissas included;
+* `slowBinary_correct` — **complete**: the undecided case: both digit loops, leading-zero skipping, the
+  `u64_step` cut, the sticky flag and the rounding of `slow_binary`.
 -/
 namespace LexVerif.Props.C05
-open LexVerif.Spec
+open LexVerif.Spec LexVerif.Model LexVerif.Proof.Tables
+open LexVerif.Proof.RoundNE LexVerif.Proof.ExtRound LexVerif.Proof.FastPathExact LexVerif.Proof.BinaryCorrect
+open LexVerif.Proof.SlowBinary
+open LexVerif.Props.TablesParse
 
 /-- the oracle's result never depends on the exponent once the mantissa digits are all zero -/
 theorem litBits_zero_any_radix (f : Fmt) (r b : Nat) (l : FloatLit)
     (h : ofDigits r (l.intDigits ++ l.fracDigits) = 0) :
     litBits f r b l = if l.neg then f.signBit else 0 := by
   unfold litBits; simp [h]
+
+/-! ## fast path, every radix -/
+
+def IsRadixSet (S : SmallSet) : Prop := S = SmallSet.Radix ∨ S = SmallSet.CompactRadix
+
+theorem fastTables_radix {S : SmallSet} (hS : IsRadixSet S) {r : Nat} (hr : r ∈ S.radices) :
+    FastTables S f64 r ∧ FastTables S f32 r := by
+  have lim64 : ∀ {S : SmallSet}, (∀ r ∈ S.radices, (limitsOk S f32 r && limitsOk S f64 r) = true) →
+      ∀ r ∈ S.radices, limitsOk S f64 r = true := fun h r hr => by
+    have := h r hr; simp only [Bool.and_eq_true] at this; exact this.2
+  have lim32 : ∀ {S : SmallSet}, (∀ r ∈ S.radices, (limitsOk S f32 r && limitsOk S f64 r) = true) →
+      ∀ r ∈ S.radices, limitsOk S f32 r = true := fun h r hr => by
+    have := h r hr; simp only [Bool.and_eq_true] at this; exact this.1
+  rcases hS with h | h <;> subst h
+  · have hri : r ∈ SmallSet.Radix.intRadices := by
+      have : SmallSet.Radix.intRadices = SmallSet.Radix.radices := by decide
+      rw [this]; exact hr
+    have hpos : 0 < r := by
+      have : ∀ x ∈ SmallSet.Radix.radices, 0 < x := by decide
+      exact this r hr
+    have hml : SmallSet.Radix.f32MantissaLimit r ≤ SmallSet.Radix.f64MantissaLimit r := by
+      have : ∀ x ∈ SmallSet.Radix.radices, SmallSet.Radix.f32MantissaLimit x ≤ SmallSet.Radix.f64MantissaLimit x := by
+        decide
+      exact this r hr
+    exact ⟨⟨(small_f64_powers_radix r hr).2, lim64 limits_ok_radix r hr,
+        fun e he => ((small_int_powers_radix r hri).2.2 e he).1, hpos, (small_f64_powers_radix r hr).1,
+        (small_int_powers_radix r hri).2.1⟩,
+      ⟨(small_f32_powers_radix r hr).2, lim32 limits_ok_radix r hr,
+        fun e he => ((small_int_powers_radix r hri).2.2 e he).1, hpos, (small_f32_powers_radix r hr).1,
+        Int.lt_of_le_of_lt hml (small_int_powers_radix r hri).2.1⟩⟩
+  · have hri : r ∈ SmallSet.CompactRadix.intRadices := by
+      have : SmallSet.CompactRadix.intRadices = SmallSet.CompactRadix.radices := by decide
+      rw [this]; exact hr
+    have hpos : 0 < r := by
+      have : ∀ x ∈ SmallSet.CompactRadix.radices, 0 < x := by decide
+      exact this r hr
+    have hml : SmallSet.CompactRadix.f32MantissaLimit r ≤ SmallSet.CompactRadix.f64MantissaLimit r := by
+      have : ∀ x ∈ SmallSet.CompactRadix.radices,
+          SmallSet.CompactRadix.f32MantissaLimit x ≤ SmallSet.CompactRadix.f64MantissaLimit x := by decide
+      exact this r hr
+    exact ⟨⟨(small_f64_powers_compact r hr).2, lim64 limits_ok_compact r hr,
+        fun e he => ((small_int_powers_compact r hri).2.2 e he).1, hpos, (small_f64_powers_compact r hr).1,
+        (small_int_powers_compact r hri).2.1⟩,
+      ⟨(small_f32_powers_compact r hr).2, lim32 limits_ok_compact r hr,
+        fun e he => ((small_int_powers_compact r hri).2.2 e he).1, hpos, (small_f32_powers_compact r hr).1,
+        Int.lt_of_le_of_lt hml (small_int_powers_compact r hri).2.1⟩⟩
+
+/-- **`fastPath_exact`, every radix**: whenever `try_fast_path` answers `Some(v)` for a radix-`r` number
+(`r ∈ 2..=36`; the answer is `None` when the exponent base differs from the mantissa radix), `v` is the
+correctly rounded, signed value of `mantissa · r^exponent`. -/
+theorem fastPath_exact_radix_f64 {S : SmallSet} (hS : IsRadixSet S) {r : Nat} (hr : r ∈ S.radices)
+    (expBase : Nat) (n : Num) (v : Nat) (h : FastPath.tryFastPath S FTy.f64 r expBase n = .some v) :
+    v = roundSigned f64 n.isNegative (powFrac r n.exponent n.mantissa).1 (powFrac r n.exponent n.mantissa).2 :=
+  LexVerif.Proof.FastPathExact.fastPath_exact layout_f64 (fastTables_radix hS hr).1 expBase n v h
+
+theorem fastPath_exact_radix_f32 {S : SmallSet} (hS : IsRadixSet S) {r : Nat} (hr : r ∈ S.radices)
+    (expBase : Nat) (n : Num) (v : Nat) (h : FastPath.tryFastPath S FTy.f32 r expBase n = .some v) :
+    v = roundSigned f32 n.isNegative (powFrac r n.exponent n.mantissa).1 (powFrac r n.exponent n.mantissa).2 :=
+  LexVerif.Proof.FastPathExact.fastPath_exact layout_f32 (fastTables_radix hS hr).2 expBase n v h
+
+/-- `try_fast_path` never panics, any radix -/
+theorem fastPath_no_panic_radix {S : SmallSet} (hS : IsRadixSet S) {r : Nat} (hr : r ∈ S.radices) (F : FTy)
+    (hF : F = FTy.f64 ∨ F = FTy.f32) (expBase : Nat) (n : Num) : FastPath.tryFastPath S F r expBase n ≠ .panic := by
+  rcases hF with h | h <;> subst h
+  · exact LexVerif.Proof.FastPathExact.fastPath_no_panic (fastTables_radix hS hr).1 expBase n
+  · exact LexVerif.Proof.FastPathExact.fastPath_no_panic (fastTables_radix hS hr).2 expBase n
+
+/-- the mixed-base guard (/repo commit 5add295): no native fast path when the exponent base differs -/
+theorem fastPath_mixed_base_none (S : SmallSet) (F : FTy) {r b : Nat} (h : r ≠ b) (n : Num) :
+    FastPath.tryFastPath S F r b n = .none := by
+  unfold FastPath.tryFastPath; rw [if_pos h]
+
+/-- non-vacuity: radix 3 (`12345·3^10`), radix 36 disguised, radix 16 division; `1.8p3`-style mixed base declines -/
+example : FastPath.tryFastPath SmallSet.Radix FTy.f64 3 3 ⟨12345, 10, false, false⟩ = .some 0x41c5b985d0800000 ∧
+    FastPath.tryFastPath SmallSet.Radix FTy.f64 16 2 ⟨24, 3, false, false⟩ = .none ∧
+    (3 ∈ SmallSet.Radix.radices ∧ 36 ∈ SmallSet.CompactRadix.radices) := by
+  decide +kernel
+
+/-! ## power-of-two radices -/
+
+def IsPow2 (b : Nat) : Prop := b = 2 ∨ b = 4 ∨ b = 8 ∨ b = 16 ∨ b = 32
+
+/-- exponents `parse_number` can hand over without saturating `calculate_power2` (it saturates literal
+exponents at `±2^28`; beyond `±2^27` in radix 32 `calculate_power2` clamps and the answer is 0 / ∞) -/
+def ExpInRange (e : Int) : Prop := -(2 ^ 27 : Int) ≤ e ∧ e ≤ (2 ^ 27 : Int)
+
+/-- **`binary_correct`**: a valid answer of `binary::<f64, FORMAT>` (any power-of-two exponent base, `lossy`
+and `many_digits` arbitrary) is `roundNE (mantissa · base^exponent)`: shifting, the half-way/even test,
+denormals, underflow to zero, overflow to infinity. -/
+theorem binary_correct_f64 {base : Nat} (hb : IsPow2 base) (n : Num) (lossy : Bool)
+    (hm : n.mantissa < 2 ^ 64) (he : ExpInRange n.exponent) (hmk : MarkerOk FTy.f64 base n)
+    {fp : ExtendedFloat80} (h : Binary.binary FTy.f64 base n lossy = .ok fp) (hv : 0 ≤ fp.exp) :
+    extendedToFloat FTy.f64 fp =
+      roundNE f64 (powFrac base n.exponent n.mantissa).1 (powFrac base n.exponent n.mantissa).2 :=
+  binary_exact layout_f64 hb n lossy hm he.1 he.2 hmk h hv
+
+theorem binary_correct_f32 {base : Nat} (hb : IsPow2 base) (n : Num) (lossy : Bool)
+    (hm : n.mantissa < 2 ^ 64) (he : ExpInRange n.exponent) (hmk : MarkerOk FTy.f32 base n)
+    {fp : ExtendedFloat80} (h : Binary.binary FTy.f32 base n lossy = .ok fp) (hv : 0 ≤ fp.exp) :
+    extendedToFloat FTy.f32 fp =
+      roundNE f32 (powFrac base n.exponent n.mantissa).1 (powFrac base n.exponent n.mantissa).2 :=
+  binary_exact layout_f32 hb n lossy hm he.1 he.2 hmk h hv
+
+/-- `binary` always decides an untruncated mantissa (and everything under `lossy`) -/
+theorem binary_decides {F : FTy} (hF : F = FTy.f64 ∨ F = FTy.f32) {base : Nat} (hb : IsPow2 base) (n : Num)
+    (lossy : Bool) (hm : n.mantissa < 2 ^ 64) (he : ExpInRange n.exponent)
+    (hdec : n.manyDigits = false ∨ lossy = true) :
+    ∃ fp, Binary.binary F base n lossy = .ok fp ∧ 0 ≤ fp.exp := by
+  rcases hF with h | h <;> subst h
+  · exact binary_valid layout_f64 hb n lossy hm he.1 he.2 hdec
+  · exact binary_valid layout_f32 hb n lossy hm he.1 he.2 hdec
+
+/-- the exclusion is needed (`<<< 40000` is `· 2^40000`, the exact value): negation witness on the model (and on the implementation: op
+`bin f64 202020000000000000000000000000c 9223372036854776832 40000 1 0` answers `ok 8730000000000400 …`) -/
+theorem binary_marker_overflow :
+    Binary.binary FTy.f64 2 ⟨2 ^ 63 + 2 ^ 10, 40000, false, true⟩ false = .ok ⟨2 ^ 63 + 2 ^ 10, 8307⟩ ∧
+    extendedToFloat FTy.f64 ⟨2 ^ 63 + 2 ^ 10, 8307⟩ = 0x8730000000000400 ∧
+    roundNE f64 ((2 ^ 63 + 2 ^ 10) <<< 40000) 1 = 0x7ff0000000000000 ∧
+    ¬ MarkerOk FTy.f64 2 ⟨2 ^ 63 + 2 ^ 10, 40000, false, true⟩ := binary_marker_overflow_witness
+
+/-- `MarkerOk` holds on the whole range of finite results: `power2 < 32768` -/
+example : MarkerOk FTy.f64 16 ⟨0x8000000000000400, 200, false, true⟩ := by unfold MarkerOk; decide +kernel
+
+/-- non-vacuity of `binary_correct`: a denormal result, a tie to even, an undecided truncated mantissa -/
+example : Binary.binary FTy.f64 2 ⟨3, -1075, false, false⟩ false = .ok ⟨2, 0⟩ ∧
+    Binary.binary FTy.f64 16 ⟨0x20000000000001, 0, false, false⟩ false = .ok ⟨0, 1076⟩ ∧
+    Binary.binary FTy.f64 16 ⟨0x20000000000001, 0, false, true⟩ false = .ok ⟨9223372036854776832, -31703⟩ := by
+  decide +kernel
+
+/-- **`binary_truncated_correct`**: the value of the whole literal is `x = (M + r/c)·base^e` with `0 ≤ r < c`
+(`r = 0` when nothing was truncated). If non-lossy `binary` answers with a valid float, that float is
+`roundNE x` — provided the mantissa fills the word up to fewer leading zeros than bits are shifted out
+(`clz(M) < shift`; true whenever `M` holds `u64_step` digits: at most 9 leading zeros against a shift `≥ 11`). -/
+theorem binary_truncated_correct {F : FTy} (hF : F = FTy.f64 ∨ F = FTy.f32) {base : Nat} (hb : IsPow2 base)
+    (n : Num) (hm : n.mantissa < 2 ^ 64) (he : ExpInRange n.exponent) (hmk : MarkerOk F base n)
+    (c r : Nat) (hr : r < c) (hmany : n.manyDigits = false → r = 0) (hM0 : n.mantissa ≠ 0)
+    (hcs : clz64 n.mantissa < shiftOf F.fmt.p (Binary.calculatePower2 F base n.exponent (clz64 n.mantissa)))
+    {fp : ExtendedFloat80} (h : Binary.binary F base n false = .ok fp) (hv : 0 ≤ fp.exp) :
+    extendedToFloat F fp =
+      roundNE F.fmt (powFrac base n.exponent (n.mantissa * c + r)).1
+        ((powFrac base n.exponent (n.mantissa * c + r)).2 * c) := by
+  rcases hF with h' | h' <;> subst h'
+  · exact binary_truncated layout_f64 hb n hm he.1 he.2 hmk c r hr hmany hM0 hcs h hv
+  · exact binary_truncated layout_f32 hb n hm he.1 he.2 hmk c r hr hmany hM0 hcs h hv
+
+/-- the significant digit values of a literal: leading zeros of integer ++ fraction dropped -/
+def sigDigits (radix : Nat) (integer : List Nat) (fraction : Option (List Nat)) : List Nat :=
+  ((integer ++ fraction.getD []).map fun c => Binary.digitVal c radix).dropWhile (· == 0)
+
+/-- **`slowBinary_correct`** (**complete**): when `binary` could not decide — the first `u64_step` significant
+digits `M` sit exactly half-way above an even significand — `slow_binary` returns `roundNE` of the whole literal
+`(M + 0.d₁d₂…)·base^e`: down to even when every further digit is zero, up otherwise. Covers both digit loops of
+`parse_u64_digits` (single digits; 8 digits at a time for radix ≤ 10 in non-`compact` builds), the skipping of
+leading zeros across integer and fraction part, the `u64_step` cut and the sticky flag. Bytes are ASCII digits
+valid for the radix (what `parse_number` hands over for a separator-free format). -/
+theorem slowBinary_correct (F : FTy) (hF : F = FTy.f64 ∨ F = FTy.f32) (compact : Bool) (radix : Nat)
+    (hradix : IsPow2 radix) (base : Nat) (hb : IsPow2 base)
+    (u64step : Nat) (hfit : radix ^ u64step ≤ 2 ^ 64) (hmax : 2 ^ 64 < radix ^ (u64step + 1))
+    (e : Int) (he : ExpInRange e) (integer : List Nat) (fraction : Option (List Nat))
+    (hvalid : ∀ c ∈ integer ++ fraction.getD [], c < 256 ∧ Binary.digitVal c radix < radix)
+    (hund : ∃ fp, Binary.binary F base
+        ⟨valOf radix 0 ((sigDigits radix integer fraction).take u64step), e, false, true⟩ false = .ok fp ∧
+        fp.exp < 0) :
+    extendedToFloat F (Binary.slowBinary F compact radix base u64step e integer fraction) =
+      roundNE F.fmt (powFrac base e (valOf radix 0 (sigDigits radix integer fraction))).1
+        ((powFrac base e (valOf radix 0 (sigDigits radix integer fraction))).2 *
+          radix ^ ((sigDigits radix integer fraction).length - u64step)) := by
+  rcases hF with h' | h' <;> subst h'
+  · exact slowBinary_digits_correct layout_f64 (by decide) compact radix hradix hb u64step hfit hmax e
+      he.1 he.2 integer fraction hvalid hund
+  · exact slowBinary_digits_correct layout_f32 (by decide) compact radix hradix hb u64step hfit hmax e
+      he.1 he.2 integer fraction hvalid hund
+
+/-- the `u64_step` values of the crate satisfy the hypothesis `radix^step ≤ 2^64 < radix^(step+1)` -/
+example : ∀ r ∈ [2, 4, 8, 16, 32], r ^ SmallSet.Radix.u64Step r ≤ 2 ^ 64 ∧ 2 ^ 64 < r ^ (SmallSet.Radix.u64Step r + 1) := by
+  decide
+
+/-- non-vacuity: radix 16, sixteen digits `8000000000000400` (even, exactly half-way) then `1`: `binary`
+declines, `slow_binary` rounds up; with a `0` tail it rounds to even -/
+example : Binary.binary FTy.f64 16 ⟨0x8000000000000400, 1, false, true⟩ false = .ok ⟨0x8000000000000400, -31689⟩ ∧
+    Binary.slowBinary FTy.f64 false 16 16 16 1 [56,48,48,48,48,48,48,48,48,48,48,48,48,52,48,48,49] none = ⟨1, 1090⟩ ∧
+    Binary.slowBinary FTy.f64 false 16 16 16 1 [56,48,48,48,48,48,48,48,48,48,48,48,48,52,48,48,48] none = ⟨0, 1090⟩ := by
+  decide +kernel
+
+/-! ## Bellerophon, generic radices -/
+
+open LexVerif.Proof.Bell in
+/-- which `(tables, radix)` pairs the crate can be compiled with -/
+def IsBellTable (P : Gen.Bellerophon.Powers) (r : Nat) : Prop :=
+  (r ∈ bellRadicesRadix ∧ P = Gen.Bellerophon.Radix.powers r) ∨
+  (r ∈ bellRadicesCompact ∧ P = Gen.Bellerophon.CompactRadix.powers r)
+
+open LexVerif.Proof.Bell in
+/-- **`bellerophon_radix_sound`** (**complete** on the model): for every radix with Bellerophon tables (29 generic
+radices, `radix` and `compact` builds; 10 under `compact`), a valid non-lossy answer of `bellerophon::<F, FORMAT>`
+is `roundNE` of the true value of the literal (`TrueValue`: `w·r^e`, or any value in `[w, w+1)·r^e` for a
+truncated mantissa `w ≥ 2^44` — a `u64_step`-digit mantissa is at least `r^(u64_step−1) ≥ 2^55`). -/
+theorem bellerophon_radix_sound (F : FTy) (hF : F = FTy.f64 ∨ F = FTy.f32)
+    (P : Gen.Bellerophon.Powers) (r : Nat) (hP : IsBellTable P r) (n : Num) (hw : n.mantissa < 2 ^ 64)
+    (hmw : n.manyDigits = true → 2 ^ 44 ≤ n.mantissa) (num den : Nat) (hd : 0 < den)
+    (htv : TrueValue r n num den) {fp : ExtendedFloat80}
+    (h : Bellerophon.bellerophon F P n false = .ok fp) (hv : 0 ≤ fp.exp) :
+    extendedToFloat F fp = roundNE F.fmt num den := by
+  have hc : BellFacts r P := by
+    rcases hP with ⟨hr, rfl⟩ | ⟨hr, rfl⟩
+    · exact bellFacts_of (bellCheck_radix r hr)
+    · exact bellFacts_of (bellCheck_compact r hr)
+  rcases hF with h' | h' <;> subst h'
+  · exact bellerophon_sound_all layout_f64 (by decide) hc n hw hmw num den hd htv h hv
+  · exact bellerophon_sound_all layout_f32 (by decide) hc n hw hmw num den hd htv h hv
+
+open LexVerif.Proof.Bell in
+/-- the untruncated case in closed form -/
+theorem bellerophon_radix_sound_untruncated (F : FTy) (hF : F = FTy.f64 ∨ F = FTy.f32)
+    (P : Gen.Bellerophon.Powers) (r : Nat) (hP : IsBellTable P r) (n : Num) (hmany : n.manyDigits = false)
+    (hw : n.mantissa < 2 ^ 64) {fp : ExtendedFloat80}
+    (h : Bellerophon.bellerophon F P n false = .ok fp) (hv : 0 ≤ fp.exp) :
+    extendedToFloat F fp =
+      roundNE F.fmt (powFrac r n.exponent n.mantissa).1 (powFrac r n.exponent n.mantissa).2 := by
+  have hc : BellFacts r P := by
+    rcases hP with ⟨hr, rfl⟩ | ⟨hr, rfl⟩
+    · exact bellFacts_of (bellCheck_radix r hr)
+    · exact bellFacts_of (bellCheck_compact r hr)
+  rcases hF with h' | h' <;> subst h'
+  · exact bellerophon_untruncated_sound layout_f64 (by decide) hc n hmany hw h hv
+  · exact bellerophon_untruncated_sound layout_f32 (by decide) hc n hmany hw h hv
+
+open LexVerif.Proof.Bell in
+/-- `bellerophon` never panics for a radix with tables (for a radix **without** tables — powers of two, and 10 in
+non-`compact` builds — it does: remainder by `step = 0`; the dispatcher never sends those there) -/
+theorem bellerophon_no_panic_radix (F : FTy) (P : Gen.Bellerophon.Powers) (r : Nat) (hP : IsBellTable P r)
+    (n : Num) (lossy : Bool) : Bellerophon.bellerophon F P n lossy ≠ .panic := by
+  have hc : BellFacts r P := by
+    rcases hP with ⟨hr, rfl⟩ | ⟨hr, rfl⟩
+    · exact bellFacts_of (bellCheck_radix r hr)
+    · exact bellFacts_of (bellCheck_compact r hr)
+  exact LexVerif.Proof.Bell.bellerophon_no_panic hc n lossy
+
+/-- non-vacuity: radix 3 -/
+example : Bellerophon.bellerophon FTy.f64 (Gen.Bellerophon.Radix.powers 3) ⟨12345, 10, false, false⟩ false =
+    .ok ⟨1611359263391744, 1052⟩ ∧ IsBellTable (Gen.Bellerophon.Radix.powers 3) 3 := by
+  refine ⟨by decide +kernel, Or.inl ⟨by decide, rfl⟩⟩
 
 end LexVerif.Props.C05
